@@ -1,5 +1,8 @@
+(* Token-level core of C19 (from the round-0 spike): the three passes of the code - skeleton construction with the two parenthesis
+   guards, eval of the skeleton (LicModel.pyrun), identifier/WITH pass - accept exactly the token sequences of the SPDX automaton. *)
 From Coq Require Import List Arith Bool Lia.
 Import ListNotations.
+Require Import LicModel.
 
 Section L.
 Variable id : Type.
@@ -27,7 +30,6 @@ Fixpoint run (m : mode) (d : nat) (ts : list tok) : bool :=
 Definition spdx_ok (ts : list tok) : bool := run WantOperand 0 ts.
 
 (* ---------- the code (with the D11/D12/D13/D28 repairs), three passes over the tokens ---------- *)
-Inductive ptok := PF | POr | PAnd | PL | PR.
 (* pass 1: build the Python skeleton, rejecting "(" after an operand and ")" right after "(" *)
 Fixpoint pass1 (last : option ptok) (ts : list tok) : option (list ptok) :=
   match ts with
@@ -42,20 +44,6 @@ Fixpoint pass1 (last : option ptok) (ts : list tok) : option (list ptok) :=
       | TL => match last with None | Some POr | Some PAnd | Some PL => emit PL | _ => None end
       | TR => match last with Some PL => None | _ => emit PR end
       end
-  end.
-(* eval() of the skeleton: what CPython's parser accepts on these tokens once the two guards have passed,
-   with value False (trusted; validated exhaustively for short token sequences) *)
-Fixpoint pyrun (want : bool) (d : nat) (ps : list ptok) : bool :=
-  match ps with
-  | [] => negb want && Nat.eqb d 0
-  | p :: r =>
-    match want, p with
-    | true, PF => pyrun false d r
-    | true, PL => pyrun true (S d) r
-    | false, POr | false, PAnd => pyrun true d r
-    | false, PR => match d with S d' => pyrun false d' r | O => false end
-    | _, _ => false
-    end
   end.
 (* pass 2: identifiers; WITH must directly follow a licence identifier and be followed by an exception identifier *)
 Fixpoint pass2 (after_with last_lic : bool) (ts : list tok) : bool :=
